@@ -11,6 +11,8 @@ Faults: F7 gc between queries; exceptions raised by a query are counted (FAULT-P
 """
 import io
 
+import json
+
 import numpy as np
 
 from .. import fitlib, userlib
@@ -98,7 +100,7 @@ class QueryMachine(Machine):
         ops.append(["do_fit"])
         nq = sw.randint(3, 8 if tier == "quick" else 14)
         kinds = ["cov", "cor", "errors", "asym", "profile", "contour", "cp_profile", "result_dict", "report", "hessian", "band", "gc", "cp_contours", "result_dict_asym",
-                 "to_file", "to_file_asym"] + (["plot"] if tier == "thorough" else [])
+                 "to_file", "to_file_asym", "eval_model"] + (["plot"] if tier == "thorough" else [])
         w = {k: sw.choice([0, 1, 2, 3]) for k in kinds}
         forced = kinds[(idx // len(FT)) % len(kinds)]
         w[forced] = max(w[forced], 3)
@@ -119,6 +121,11 @@ class QueryMachine(Machine):
                     kw["sigma"] = rng.choice([1.0, 2.0])
                 elif r < 0.5:
                     kw["cl"] = rng.choice([0.68, 0.9])
+                elif r < 0.62:
+                    # a request kafe2 rejects (range on the wrong side of the optimum / impossible confidence level): the fit must stay where it is
+                    kw[rng.choice(["low_rel", "high_rel"])] = rng.choice([0.5, 1.5])
+                elif r < 0.68:
+                    kw["cl"] = [0.9, 1.5]
                 kw["size"] = rng.choice([4, 6, 8])
                 kw["subtract_min"] = rng.random() < 0.5
                 kw["arrows"] = rng.random() < 0.3
@@ -178,7 +185,20 @@ class QueryMachine(Machine):
             return mz.hessian_inv
         if k == "profile":
             kw = dict(q[2])
+            pi = sim.ref.par_names.index(q[1])
+            pv, pe = float(fit.parameter_values[pi]), float(fit.parameter_errors[pi])
+            if "low_rel" in kw:
+                kw["low"] = pv + kw.pop("low_rel") * pe  # above the optimum: rejected by kafe2
+            if "high_rel" in kw:
+                kw["high"] = pv - kw.pop("high_rel") * pe  # below the optimum: rejected by kafe2
             return fit._fitter.profile(q[1], **kw)
+        if k == "eval_model":
+            # evaluating the model function at user-chosen support points / parameters (what plots do) is a read as well
+            t = sim.spec["type"]
+            if t == "indexed":
+                return fit.eval_model_function()
+            xs = np.linspace(-2.0, 7.0, 23)
+            return fit.eval_model_function(x=xs)
         if k == "contour":
             return fit._fitter.contour(q[1], q[2], sigma=q[3], numpoints=12) if sim.spec["minimizer"] == "iminuit" else fit._fitter.contour(q[1], q[2], sigma=q[3])
         if k == "cp_profile":
@@ -231,6 +251,7 @@ class QueryMachine(Machine):
         base = None
         prev_q = None
         prev_sum = None
+        answers = {}
         nq = 0
         for step, op in enumerate(ops[1:], start=1):
             k = op[0]
@@ -341,6 +362,11 @@ class QueryMachine(Machine):
             res.bump("op_q_" + q[0])
             self.invariants(sim, base, q, step, raised, res)
             s = summarize(q, r)
+            qkey = json.dumps(q, sort_keys=True)
+            if prev_q != q and raised is None and s is not None and answers.get(qkey) is not None:
+                # the same question again after other queries in between
+                prev_q, prev_sum = q, answers[qkey]
+                res.probe("same_question_again_later")
             if prev_q == q and raised is None and s is not None and prev_sum is not None:
                 res.probe("same_question_twice")
                 if s.shape != prev_sum.shape or not np.allclose(s, prev_sum, rtol=0.05, atol=0.05 * float(np.max(np.abs(prev_sum))) + 1e-9, equal_nan=True):
@@ -357,6 +383,8 @@ class QueryMachine(Machine):
                     raise Violation(PROP, "same-answer", q[0], "query %r asked twice in a row gave %s then %s" % (q, _fmt(prev_sum), _fmt(s)), step=step,
                                     expected=prev_sum, actual=s, extra={"tags": tags})
             prev_q, prev_sum = q, (s if raised is None else None)
+            if raised is None and s is not None:
+                answers[qkey] = s
             log.add(["q"] + list(q), "raised" if raised else "ok", s)
             nx = fit._nexus
             res.states.add(h64(q[0], tuple((n, bool(getattr(nx._nodes[n], "_stale", False)), bool(getattr(nx._nodes[n], "_frozen", False))) for n in sorted(nx._nodes)),
